@@ -29,7 +29,7 @@ var c20ActionBodies = map[string]string{
 	"garbage": `not json`,
 }
 
-var c20ActionNames = []string{"list", "status", "history", "get", "getvalues", "getmetadata"}
+var c20ActionNames = []string{"list", "status", "history", "get", "getvalues", "getallvalues", "getmetadata"}
 
 // c20RunAction: e.Note = action, e.Data = body kind.  Step names the pair, so that the
 // signature of a failure is specific to (action, record shape).
@@ -64,6 +64,10 @@ func c20RunAction(e *c20ExploreC, step *string) bool {
 		_, err = action.NewGet(cfg).Run("x")
 	case "getvalues":
 		_, err = action.NewGetValues(cfg).Run("x")
+	case "getallvalues":
+		g := action.NewGetValues(cfg)
+		g.AllValues = true
+		_, err = g.Run("x")
 	case "getmetadata":
 		_, err = action.NewGetMetadata(cfg).Run("x")
 	}
